@@ -34,7 +34,7 @@ func (o *Obligation) query(withModel bool) string {
 	}
 	var bodyLines []string
 	for i := np; i < len(lines); i++ {
-		if _, isAx := o.VC.axLines[i]; !isAx {
+		if _, isAx := o.VC.axLines[i]; !isAx && !strings.HasPrefix(lines[i], "(declare-") {
 			bodyLines = append(bodyLines, lines[i])
 		}
 	}
@@ -43,7 +43,7 @@ func (o *Obligation) query(withModel bool) string {
 		if ax, isAx := o.VC.axLines[i]; isAx {
 			used := false
 			for _, s := range ax.syms {
-				if strings.Contains(body, "("+s+" ") {
+				if strings.Contains(body, "("+s+" ") || (strings.Contains(s, "ghost:") && strings.Contains(body, s)) {
 					used = true
 					break
 				}
